@@ -790,6 +790,28 @@ def call_method(E, recv, name, args, kwargs, st, node):
             return [(write_recv(E, node, LitSet(recv.items + (args[0],)), st), NONE)]
         if name == "copy":
             return [(st, recv)]
+        if name in ("update", "union") and len(args) == 1 and isinstance(args[0], LitSet):
+            # union of two small sets of concrete candidates: a candidate is present if it is present in either
+            other = args[0]
+            items, conds = list(recv.items), [recv.cond(i) for i in range(len(recv.items))]
+            for j, x in enumerate(other.items):
+                cj = other.cond(j)
+                hit = None
+                for i, y in enumerate(items):
+                    if (x is y) or (x is not NONE and y is not NONE and not is_z3(x) and not is_z3(y) and x == y):
+                        hit = i
+                        break
+                if hit is None:
+                    if is_z3(x):
+                        raise EngineError("set.%s with symbolic members" % name)
+                    items.append(x)
+                    conds.append(cj)
+                else:
+                    conds[hit] = b_or(conds[hit], cj)
+            new = LitSet(items, conds if any(c is not True for c in conds) else None)
+            if name == "union":
+                return [(st, new)]
+            return [(write_recv(E, node, new, st), NONE)]
         if name in ("union", "intersection", "difference", "isdisjoint", "issubset"):
             raise EngineError("set.%s on literal sets" % name)
         raise EngineError("set.%s" % name)
